@@ -14,6 +14,12 @@ CHECKS = {
         note="Trusts Python float() for number tokens and the reference interpreter in harness/ref/pathref.py (written from the SVG 1.1/2 path chapter); arcs compared for plumbing only (F.6 math is C05).",
         ref="5/C01",
     ),
+    "C17": dict(
+        technique="property-based testing: differential check of incremental parsing against the joined string, exhaustive over command pairs at the split",
+        text="Generated command-boundary splits of grammar-conforming strings (and all 20x20 command pairs with the split between them, x3 operators) applied with +, +=, parse and Move+str, compared segment-wise with the parse of the joined text; Path+Path and Path+Shape concatenation compared with the operands' own segments. Exploration.",
+        note="The joined-string parse is the oracle (the property is stated as that equality); its own correctness is C01's subject. Shapes are appended through their d() text, so their arcs are compared at six significant digits (known finding KF-ARC-D-6DIGITS of C07).",
+        ref="5/C17",
+    ),
 }
 
 REASON_PENDING = "no check registered yet in this build; the design (DESIGN.md section 5) covers it with property-based testing"
